@@ -19,11 +19,23 @@ for d in sorted(glob.glob('/verif/seeded/C*')):
                 ob=re.search(r'obligation=(\S+)',l).group(1)
                 ob=re.sub(r'\[[^\]]*\]','',ob)
                 alarms[cur].append(ob+('' if 'no-failing-input-found' in l else ' (replayed)'))
+    # own.txt (scripts/seedown.sh): the own property re-run with the current engine; it supersedes the
+    # own-property rows of checks.txt (the full matrix may stem from an earlier engine version)
+    if os.path.exists(d+'/own.txt'):
+        cur=None
+        for l in open(d+'/own.txt'):
+            m=re.match(r'== (C\d+) exit=(\d+)',l)
+            if m: cur=m.group(1); alarms[cur]=[]; continue
+            if l.startswith('VIOLATION') and cur:
+                ob=re.search(r'obligation=(\S+)',l).group(1)
+                ob=re.sub(r'\[[^\]]*\]','',ob)
+                alarms[cur].append(ob+('' if 'no-failing-input-found' in l else ' (replayed)'))
     hit=[p for p,a in alarms.items() if a]
     rows.append((sid,meta.get('summary','').replace('|','/'),meta.get('needs','').replace('|','/'),ok,alarms,hit))
 out=['# Seeded changes and the checks that catch them','',
  'Each change was written by an independent sub-agent that saw only the property text and a scratch worktree (nothing from /verif).',
- 'I confirmed each one myself (`confirmation.txt`: suite passes with the change, the demonstration fails with it and passes without it) and ran every registered quick check against it (`checks.txt`; `scripts/seedtest.sh`).','',
+ 'I confirmed each one myself (`confirmation.txt`: suite passes with the change, the demonstration fails with it and passes without it) and ran every registered quick check against it (`checks.txt`; `scripts/seedtest.sh`).',
+ 'The own-property column is from `own.txt`, re-run with the final engine (`scripts/seedown.sh`); the last column is from the full matrix at the time the seed was added. "(replayed)" = failing input confirmed on the real code.','',
  '| seed | change | needs | confirmed | caught by own property | obligations of the own property | other properties that alarm |','|---|---|---|---|---|---|---|']
 for sid,summ,needs,ok,alarms,hit in rows:
     prop=sid[:3]
